@@ -12,6 +12,9 @@ THEOREMS += ['C01_simops_ops_source_is_model', 'C01_simops_ops_source_is_model_w
 THEOREMS += ['C01_simops_ops_source_uses_translated_order']
 THEOREMS += ['C01_logicsim_chain2_agrees_trace', 'C01_logicsim_loop_source_is_model', 'C01_logicsim_drivers_source_is_model_partial',
              'C01_logicsim_loop_source_nonvacuous']
+THEOREMS += ['C01_logicsim_s_to_c_source_is_model', 'C01_logicsim_c_to_s_source_is_model', 'C01_logicsim_s_ppo_to_ppi_source_is_model',
+             'C01_logicsim_drivers_source_is_model', 'C01_logicsim_drivers_source_correct', 'C01_logicsim_drivers_source_is_sim_case2',
+             'C01_logicsim_drivers_source_nonvacuous']
 
 
 def oracle_cycles(c, stim_bits, k):
@@ -64,6 +67,8 @@ def run(ck):
     nrng = np.random.default_rng(ck.seed + 1)
     ncirc = ck.scale(60, 1500)
     coq_cases, meta, so_cases, sol_cases, line_cases = [], [], [], [], []
+    full_cases, full_meta = [], []
+    from harness import lsim_full_corr as lf
     fails = []
     dom_circs = []
     targeted = targeted_cases()
@@ -110,6 +115,13 @@ def run(ck):
             meta.append(dict(desc, lane=lane))
             line_cases.append(lc.case_line(c, strip, k, (stim[:, lane] == 3).tolist(), (s0[:, lane] == 3).tolist(),
                                            ((s1[:, lane] == 3) & mask).tolist()))
+        if ok_drv and (i % 10 == 0 or i >= ncirc):
+            # the instantiated source-level model (Proofs/LogicSimDriversFull.v) against a FRESH real simulator: c, s[0], s[1], all planes
+            rr, rerr = sk.safe(lf.run_real, c, stim, reuse, strip, k)
+            if rerr is None:
+                for lane in sorted(set([0, sims - 1])):
+                    full_cases.append(lf.case(c, reuse, strip, k, rr[0], rr[1], rr[2], lane))
+                    full_meta.append(dict(desc, lane=lane, used_simulator=False, observer_callback=False))
         if i % 3 == 0 or i >= ncirc:
             _, d = sc.run_impl(c, 1, 1, reuse, strip)
             so_cases.append((c, 1, 1, reuse, strip, d))
@@ -148,6 +160,16 @@ def run(ck):
                   idx3 == [], 'correspondence', '' if idx3 == [] else out3[-400:])
     ck.obligation(f'Coq model of LogicSim(m=2) s_to_c/c_prop/c_to_s/cycle = implementation on {len(coq_cases)} lanes',
                   allok and not mism, 'correspondence', f'failing cases {mism[:10]}')
+    fmism, fran = [], True
+    if full_cases:
+        fchunks = [full_cases[i:i + 20] for i in range(0, len(full_cases), 20)]
+        fouts = ck.coq_eval_many('lsf', [lf.cases_file(ch) for ch in fchunks])
+        fmism = [ci * 20 + j for ci, (ok, out) in enumerate(fouts) for j in ((cg.parse_nat_list(out) if ok else None) or [])]
+        fran = all(ok and cg.parse_nat_list(out) is not None for ok, out in fouts)
+        ck.obligation(f'source-level model of LogicSim(m=2) (pinned s_to_c / c_to_s / s_ppo_to_ppi / cycle around the translated _prop_cpu loop, '
+                      f'instantiated on the Coq build() result: object of C01_logicsim_drivers_source_is_model) = signal memory c and all planes of '
+                      f's[0], s[1] after LogicSim.cycle(k) of a fresh real simulator on {len(full_cases)} lanes',
+                      fran and not fmism, 'correspondence', f'failing cases {fmism[:10]}' if fran else fouts[0][1][-600:])
     # line-level k-cycle iteration: the definition the multi-cycle theorems are about
     lchunks = [line_cases[i:i + 20] for i in range(0, len(line_cases), 20)]
     louts = ck.coq_eval_many('lsl', [lc.line_cases_file(ch) for ch in lchunks])
@@ -173,6 +195,10 @@ def run(ck):
         for j in lmism[:3]:
             ck.fail('model-disagrees', 'Coq line-level cycle model and implementation disagree',
                     {'component': 'Model/CycleSem.v: line_case2', 'input': meta[j], 'broken': ['correspondence LogicSim.cycle line level']}, found_input=False)
+        for j in fmism[:3]:
+            ck.fail('model-disagrees', 'source-level model of the LogicSim drivers and implementation disagree',
+                    {'component': 'Proofs/LogicSimDriversFull.v: cycle_src on the build() result', 'input': full_meta[j],
+                     'broken': ['correspondence LogicSim m=2 source level']}, found_input=False)
         for j in mism[:3]:
             # model and implementation disagree but the oracle found nothing wrong with the implementation
             ck.fail('model-disagrees', 'Coq model and implementation disagree',
